@@ -137,6 +137,9 @@ func pairPool() []pOp {
 	add("WriteSubDoc", true, true, func(w *SWorld, st *TState, c *rosmar.Collection) (string, []uint64) {
 		return errCas(c.WriteSubDoc(ctx, "k", fmt.Sprintf("p%d", st.T), 0, []byte(`1`)))
 	})
+	add("Get+WriteSubDoc", true, true, func(w *SWorld, st *TState, c *rosmar.Collection) (string, []uint64) {
+		return errCas(c.WriteSubDoc(ctx, "k", fmt.Sprintf("q%d", st.T), st.Cas, []byte(`2`)))
+	})
 	add("SubdocInsert", true, false, func(w *SWorld, st *TState, c *rosmar.Collection) (string, []uint64) {
 		return ec(c.SubdocInsert(ctx, "k", "ins", 0, st.T+1)), nil
 	})
@@ -263,6 +266,22 @@ func init() {
 							}
 						}
 					}
+					// revision numbers on a feed: increasing per key, and the event of a key's final version carries
+					// the key's revision (C17)
+					lastRev := map[string]uint64{}
+					for _, e := range evs {
+						if e.Key == "" || strings.HasSuffix(e.Opcode, "Backfill") {
+							continue
+						}
+						if p, ok := lastRev[e.Key]; ok && e.RevNo <= p && !strings.Contains(name, "PurgeTombstones") {
+							vs = append(vs, Violation{Prop: "C17", Op: name, Pre: "sched", Field: "event-rev-order", Detail: fmt.Sprintf("feed %s: event of %s with revision %d after one with revision %d: %v", f.Name, e.Key, e.RevNo, p, evs)})
+						}
+						lastRev[e.Key] = e.RevNo
+						// (a touch raises the revision without a new CAS and without an event: pairs with one are exempt)
+						if r := rows["sc.A/"+e.Key]; r != nil && r.Cas == e.Cas && uint64(r.RevSeqNo) != e.RevNo && !strings.Contains(name, "Touch") {
+							vs = append(vs, Violation{Prop: "C17", Op: name, Pre: "sched", Field: "event-rev", Detail: fmt.Sprintf("feed %s: the event of the final version of %s (CAS %d) carries revision %d, the document has %d", f.Name, e.Key, e.Cas, e.RevNo, r.RevSeqNo)})
+						}
+					}
 					// whichever way a feed came to be, the final version of every key reached it
 					for _, k := range []string{"k", "j", "n"} {
 						if r := rows["sc.A/"+k]; r != nil && (f.Name == "bf+live" || true) {
@@ -289,7 +308,14 @@ func init() {
 				thorough bool
 			}{{"live", false, 1, false}, {"live", true, 2, false}, {"absent", false, 1, false}, {"tomb", false, 1, false}, {"absent", true, 2, true}, {"tomb", true, 2, true}} {
 				pre := v.pre
-				s2 := Scenario{Name: name, Prop: []string{"C03"}, Lin: true, Keys: []string{"k", "j", "n"}, Setup: func(w *SWorld) {
+				props := []string{"C03"}
+				if a.needsRead || b.needsRead {
+					props = append(props, "C02") // a CAS-carrying write is in the race
+				}
+				if strings.Contains(name, "ubDoc") || strings.Contains(name, "ubdoc") {
+					props = append(props, "C18")
+				}
+				s2 := Scenario{Name: name, Prop: props, Lin: true, Keys: []string{"k", "j", "n"}, Setup: func(w *SWorld) {
 					pairSetup(w, pre)
 					d, _ := rosmar.VerifDumpAll(w.H[0])
 					w.setupMaxCas = d.BucketLastCas
